@@ -11,7 +11,7 @@ FORMULAS = ["TranscriptEquivalence", "BackendSaw", "RequestMetadata"]
 def design_check(scratch):
     jobs = {}
     with cf.ThreadPoolExecutor(max_workers=4) as ex:
-        for n in ["Proxy_MC", "Proxy_Direct", "Proxy_Neg_NoHalfClose", "Proxy_Neg_FirstMessage"]:
+        for n in ["Proxy_MC", "Proxy_Direct", "Proxy_Neg_NoHalfClose", "Proxy_Neg_FirstMessage", "Proxy_Neg_JoinBeforeError"]:
             jobs[n] = ex.submit(C.tlc, scratch, "Proxy_MC.tla", n + ".cfg", 2, None, 900, None, None, n)
         res = {k: f.result() for k, f in jobs.items()}
     states = trans = 0
@@ -21,10 +21,10 @@ def design_check(scratch):
             raise C.Infra("%s violated:\n%s" % (n, res[n]["out"][-2000:]))
         states += res[n]["distinct"]
         trans += res[n]["generated"]
-    for n in ["Proxy_Neg_NoHalfClose", "Proxy_Neg_FirstMessage"]:
+    for n in ["Proxy_Neg_NoHalfClose", "Proxy_Neg_FirstMessage", "Proxy_Neg_JoinBeforeError"]:
         if not C.tlc_violated(res[n]):
             raise C.Infra("vacuity guard %s found no violation" % n)
-    return dict(states=states, transitions=trans, neg_guards=2)
+    return dict(states=states, transitions=trans, neg_guards=3)
 
 
 def run(prop, tier, replay=None):
@@ -52,6 +52,13 @@ def run(prop, tier, replay=None):
                 raise C.Infra("Proxy_Gen produced no scripts:\n" + g["out"][-1500:])
             cases = []
             for s in scripts:
+                if s["mode"] == "lockstep":
+                    # ping-pong on bidi; the codes a context error would carry are always among those tried
+                    for code in ([0] if s["failK"] == 0 else [1, 4, rnd.choice([2, 3, 5, 7, 8, 9, 10, 11, 13, 14, 15, 16])]):
+                        c = dict(s)
+                        c.update(shape="bidi", code=code, det=rnd.choice([0, 1, 2]), wait=False)
+                        cases.append(c)
+                    continue
                 for shape in ["unary", "cstream", "sstream", "bidi"]:
                     cs = shape in ("cstream", "bidi")
                     ss = shape in ("sstream", "bidi")
@@ -65,9 +72,12 @@ def run(prop, tier, replay=None):
                         continue
                     if shape == "unary" and s["readN"] != 1:
                         continue
-                    for k in range(1 if tier == "quick" else 4):
+                    # a failing script is run with the two codes a context error would carry (Canceled, DeadlineExceeded)
+                    # and with seeded others; a succeeding one once
+                    codes = [0] if s["failAt"] == "never" else [1, 4] + [rnd.choice([2, 3, 5, 6, 7, 8, 9, 10, 11, 12, 13, 14, 15, 16]) for _ in range(1 if tier == "quick" else 4)]
+                    for code in codes:
                         c = dict(s)
-                        c.update(shape=shape, code=rnd.choice([2, 5, 9, 13, 14]), det=rnd.choice([0, 1, 2]), wait=False)
+                        c.update(shape=shape, code=code, det=rnd.choice([0, 1, 2]), wait=False)
                         cases.append(c)
                     if shape == "bidi" and s["readN"] == 0 and s["replyJ"] >= 1 and s["failAt"] != "before":
                         c = dict(s)
@@ -102,13 +112,13 @@ def run(prop, tier, replay=None):
             if kf:
                 known[kf["id"]] += 1
                 continue
-            key = (formula, s["shape"], s["n"] == 0, s["wait"], s["failAt"], ev["proxied"]["hang"])
+            key = (formula, s["shape"], s["mode"], s["n"] == 0, s["wait"], s["failAt"], ev["proxied"]["hang"])
             if key in viol:
                 viol[key]["more"] += 1
                 continue
             viol[key] = dict(property=prop, formula=formula, seed=seed, cases=[by_id[case]], observed=ev, signature=sig, more=0, replay_driver="proxy",
-                             what="%s: %s n=%d readN=%d replies=%d failAt=%s wait=%s: direct %s vs proxied %s" % (
-                                 formula, s["shape"], s["n"], s["readN"], s["replyJ"], s["failAt"], s["wait"],
+                             what="%s: %s %s n=%d readN=%d replies=%d failAt=%s failK=%d code=%d wait=%s: direct %s vs proxied %s" % (
+                                 formula, s["shape"], s["mode"], s["n"], s["readN"], s["replyJ"], s["failAt"], s["failK"], s["code"], s["wait"],
                                  {k: ev["direct"][k] for k in ("replies", "code", "bgot", "hang")}, {k: ev["proxied"][k] for k in ("replies", "code", "bgot", "bcalls", "hang", "mdok")}))
         for fid, nn in sorted(known.items()):
             f = next(x for x in findings if x["id"] == fid)
@@ -124,7 +134,8 @@ def run(prop, tier, replay=None):
                    evaluations=2 * stat["calls"], distinct_nontrivial=stat["streaming"],
                    rule=("scripts: every (client messages 0..2, backend reads 0/1/to-end, replies 0..2, failure point never/before/after replies/"
                          "after the client's half-close) TLC enumerates (108), on each method shape that can carry it, with seeded status code "
-                         "and details; plus 'backend speaks first, client waits' on bidi. Each executed directly and through larking by a real "
+                         "and details - failing scripts always also with Canceled and DeadlineExceeded; lock-step (ping-pong) bidi calls whose backend fails instead of "
+                         "answering message k while the client's send side is open; plus 'backend speaks first, client waits' on bidi. Each executed directly and through larking by a real "
                          "grpc-go client with request metadata incl. a -bin value. Non-trivial = calls on streaming shapes."),
                    samples=samples, exhaustive=True, neg_guards_violated=design.get("neg_guards"), **{k: v for k, v in stat.items()},
                    known_findings=dict(known))
